@@ -866,7 +866,15 @@ func (w *walker) walkExpr(e ast.Expr, c wctx) {
 					w.add(x.Sel.Name, "read", c, "", x)
 				}
 			} else if _, isMethod := w.tf.byName[x.Sel.Name]; isMethod {
-				w.unknown("<method value "+x.Sel.Name+">", c, x)
+				// a method value (handed to a callee as a callback, or kept in a local and called): analysed as a
+				// call of that method under the locks held here, exactly like a function literal written here;
+				// returned to the caller it escapes the lock
+				if c.inRet {
+					w.unknown("<method value "+x.Sel.Name+" returned to the caller>", c, x)
+				} else {
+					w.m.calls = append(w.m.calls, callEdge{phase: w.phase(), callee: x.Sel.Name, mode: c.mode, sub: c.sub,
+						inLoop: c.loop, goro: c.goro, line: w.p.line(x)})
+				}
 			} else {
 				w.add("<promoted>", "read", c, x.Sel.Name, x)
 			}
